@@ -284,3 +284,72 @@ def run(ctx):
     r4_length(ctx)
     r5_privacy(ctx)
     r6_generic_measures(ctx)
+
+
+
+def _flatten_sum(t):
+    t = peel(t)
+    if t[0] == 'field' and t[1][0] == 'bin' and t[1][1].startswith('Add') and t[2] == '0':
+        return _flatten_sum(t[1][2]) + _flatten_sum(t[1][3])
+    if t[0] == 'bin' and t[1].startswith('Add'):
+        return _flatten_sum(t[2]) + _flatten_sum(t[3])
+    return [t]
+
+
+def derive_witness(ctx):
+    """C16.R6 (thorough): MIR of the byte_len generated by #[derive(MessageBody)] for the witness shapes"""
+    from .engine.extract import get_witness_facts, ExtractError
+    ctx.set_rule('C16.R6')
+    try:
+        d = get_witness_facts()
+    except ExtractError as e:
+        ctx.note('derive witness not analysable: %s' % str(e)[:200])
+        return {'derive_witness': 'not analysable'}
+    W = Program(d, 'W')
+    n = 0
+    for f in W.fn_list:
+        if f.name != 'byte_len' or f.kind != 'assocfn' or not (f.self_adt or '').startswith('des_witness::derive::'):
+            continue
+        adt = W.adts.get(strip_generics(f.self_adt))
+        if adt is None:
+            continue
+        variants = {v['n']: [fl['n'] for fl in v['fields']] for v in adt['variants']}
+        is_enum = adt['kind'] == 'enum'
+        seen = set()
+        for path, outcome, decs in f.enum_paths():
+            if outcome != 'return':
+                continue
+            atoms = [a for _, a in path_atoms(f, path, decs)]
+            var = next((a[2] for a in atoms if a[0] == 'is'), None) if is_enum else list(variants)[0]
+            if var is None:
+                var = list(variants)[0] if len(variants) == 1 else None
+            seen.add(var)
+            terms = _flatten_sum(path_ret(f, path))
+            fields = []
+            lits = []
+            other = []
+            for t in terms:
+                if t[0] == 'call' and t[1].endswith('byte_len') and t[2]:
+                    a = peel(t[2][0])
+                    fields.append(a[2] if a[0] == 'field' else '?')
+                elif t[0] == 'int':
+                    lits.append(t[1])
+                else:
+                    other.append(show(t))
+            want = variants.get(var, None)
+            n += 1
+            ctx.check(want is not None and sorted(fields) == sorted(want) and all(x == 0 for x in lits) and not other, 'derive:%s::%s' % (f.self_adt.split('::')[-1], var),
+                      'derived byte_len of %s::%s is the sum of byte_len over exactly the fields of the active variant' % (f.self_adt.split('::')[-1], var),
+                      'witness/src/lib.rs', {'fields_measured': fields, 'fields_declared': want, 'literals': lits, 'other_terms': other})
+        missing = set(variants) - seen
+        ctx.check(not missing, 'derive-variants:%s' % f.self_adt.split('::')[-1], 'every variant of %s is measured' % f.self_adt.split('::')[-1], 'witness/src/lib.rs', sorted(missing))
+    ctx.floor('derived byte_len variants inspected', n, 10)
+    return {'derive_witness_variants': n}
+
+
+def thorough(ctx):
+    from .engine.witness import check_witnesses
+    res = check_witnesses(ctx, 'C16.R5', ('W3',), ('W3Content', 'W3ContentTwin'))
+    out = {'witnesses': res}
+    out.update(derive_witness(ctx) or {})
+    return out
